@@ -454,8 +454,8 @@ theorem C10_reentrant_partial (cfg : Cfg) (fuel host port : Nat) (evs : List Afk
       nothing fires, nothing is reported, every other request stays in the table.
     Assumed: the link `L` (request `k` ↔ correlation id `L.cid k`, made on instance `L.bOf k = q.b`),
     and that no other call reaches this broker client between the `cancel` and the `disconnect` (the
-    follow-up work of the failed request goes to other brokers); for other interleavings
-    `C10_resend_exact` and `C10_never_resent` still say what is written on the next connection. -/
+    follow-up work of the failed request goes to other brokers); without that
+    assumption: `C10_timeout_resends_any_interleaving`. -/
 theorem C10_timeout_disconnect_resends (ccfg : Afkak.ClientNet.Cfg) (st : Afkak.ClientNet.St) (k : Nat)
     (q : Afkak.ClientNet.Req) (L : Afkak.Compose.Link) (cfg : Cfg) (host port : Nat) (evs : List Ev) (rq : Req) (c : Nat)
     (hq : Afkak.ClientNet.reqGet st k = some q) (hpend : q.pending = true) (hdis : ccfg.disconnectOnTimeout = true)
@@ -495,6 +495,33 @@ theorem C10_timeout_disconnect_resends (ccfg : Afkak.ClientNet.Cfg) (st : Afkak.
   · intro chunk f
     exact Afkak.Compose.late_reply_swallowed cfg s h rq c hrq hlive hp hlo chunk f
 
+/-- The same, without assuming anything about what else reaches the broker client after the wrapper's
+    `cancel`: whatever events `mid` follow (the `disconnect`, the loss, further requests, failed
+    attempts, …), if a connection attempt is pending at the end then what is written when it succeeds is
+    exactly the table — every request made so far whose Deferred has not fired, in issue order — and
+    the timed-out request, whose Deferred the cancel fired, is not in it. -/
+theorem C10_timeout_resends_any_interleaving (cfg : Cfg) (host port : Nat) (evs mid : List Ev) (rq : Req)
+    (hrq : rq ∈ (run cfg (St.init host port) evs).reqs) (hlive : rq.cancelled = false) :
+    let evs' := evs ++ [.cancel rq.id] ++ mid
+    let s' := run cfg (St.init host port) evs'
+    s'.connector = .attempt →
+      writes (step cfg s' .connOk).2 = (if s'.wfail then [] else s'.reqs.map fun r => (s'.nconn, r.serial, r.id, false)) ∧
+      (∀ k, (∃ r ∈ s'.reqs, r.serial = k) ↔ (k < s'.nmake ∧ k ∉ Monitor.C06.firedOf (trace cfg (St.init host port) evs'))) ∧
+      rq.serial ∈ Monitor.C06.firedOf (trace cfg (St.init host port) evs') ∧
+      (∀ r ∈ s'.reqs, r.serial ≠ rq.serial) := by
+  intro evs' s' hatt
+  obtain ⟨h1, _, _, h4⟩ := C10_resend_exact cfg host port evs' hatt
+  have hs : SInv (run cfg (St.init host port) evs) := sinv_run cfg _ evs (sinv_init host port)
+  have hfired : rq.serial ∈ Monitor.C06.firedOf (trace cfg (St.init host port) evs') := by
+    have hc := Afkak.Compose.cancel_fires_now cfg _ hs rq hrq hlive
+    simp only [evs', Afkak.Compose.trace_append, Monitor.C06.firedOf, List.flatMap_append, List.mem_append]
+    left; right
+    simp only [trace, List.flatMap_cons, List.flatMap_nil, List.append_nil, hc]
+    simp [Monitor.C06.fires]
+  refine ⟨h1, h4, hfired, ?_⟩
+  intro r hr he
+  exact ((h4 rq.serial).mp ⟨r, hr, he⟩).2 hfired
+
 /-! The hypotheses are satisfiable and the conclusion is not empty: three requests on a connection, the
 second times out; the other two are written again on the next connection, a late reply is swallowed. -/
 example : let s := run ⟨fun _ => 1⟩ (St.init 1 9092) [.make 1 true, .make 2 true, .make 3 true, .connOk]
@@ -506,6 +533,15 @@ example : let s := run ⟨fun _ => 1⟩ (St.init 1 9092) [.make 1 true, .make 2 
 example : ((trace ⟨fun _ => 1⟩ (St.init 1 9092)
       [.make 1 true, .make 2 true, .make 3 true, .connOk, .cancel 2, .disconnect, .lost, .connOk]).map (·.2)).drop 4 =
     [[.fire 1 2 (.err .cancelled)], [.lose 0], [.connect 1 9092], [.write 1 0 1, .write 1 2 3]] := by decide +kernel
+/-! `C10_timeout_resends_any_interleaving` is not vacuous: with a further request made between the
+wrapper's `cancel` and its `disconnect`, an attempt is pending after the loss, and requests 1, 3 and the
+new one are written on the next connection. -/
+example : (run ⟨fun _ => 1⟩ (St.init 1 9092)
+      ([.make 1 true, .make 2 true, .make 3 true, .connOk] ++ [.cancel 2] ++ [.make 4 true, .disconnect, .lost])).connector
+    = .attempt := by decide +kernel
+example : (step ⟨fun _ => 1⟩ (run ⟨fun _ => 1⟩ (St.init 1 9092)
+      ([.make 1 true, .make 2 true, .make 3 true, .connOk] ++ [.cancel 2] ++ [.make 4 true, .disconnect, .lost])) .connOk).2
+    = [.write 1 0 1, .write 1 2 3, .write 1 3 4] := by decide +kernel
 example : ∃ (st : Afkak.ClientNet.St) (q : Afkak.ClientNet.Req),
     Afkak.ClientNet.reqGet st 0 = some q ∧ q.pending = true ∧ q.b = 5 :=
   ⟨{ reqs := [{ k := 0, b := 5, issued := 0, due := 1, owner := .srtc 0 }] }, _, rfl, rfl, rfl⟩
@@ -552,6 +588,7 @@ C10_closed_quiet
 C10_close
 C10_reentrant_partial
 C10_timeout_disconnect_resends
+C10_timeout_resends_any_interleaving
 C10_reentrant
 -/
 /- OPEN_STATEMENTS
